@@ -54,7 +54,7 @@ def run_falsifier(pid, ob, fn_result, seed, budget=None):
 
     try:
         p = subprocess.run([VENV_PY, script], input=json.dumps(req), capture_output=True, text=True,
-                           timeout=600, cwd=VERIF, env={**os.environ, 'PYTHONPATH': os.environ.get('PYVC_REPO', '/repo')})
+                           timeout=int(os.environ.get('PYVC_FALSIFIER_TIMEOUT', '240')), cwd=VERIF, env={**os.environ, 'PYTHONPATH': os.environ.get('PYVC_REPO', '/repo')})
         line = [ln for ln in p.stdout.splitlines() if ln.startswith('{')]
         if not line:
             return {'reproduced': None, 'detail': (p.stderr or p.stdout)[-2000:]}
